@@ -132,7 +132,7 @@ func (m *Machine) verifyOnce() {
 		v := m.ts.FreshValue("in."+n, p.Type())
 		m.markOld(v)
 		m.assumeWellFormed(st, p.Type(), v)
-		m.inputLeaves(n, p.Type(), v)
+		m.inputLeavesDeep(st, n, p.Type(), v, 0)
 		args = append(args, v)
 	}
 	var fvals []Value
@@ -188,13 +188,24 @@ func (m *Machine) verifyOnce() {
 		}
 	}
 	if m.fc != nil && len(m.fc.Ensures) > 0 {
-		// at least one return path must be feasible
-		var disj []*Term
-		for _, pc := range m.coverPCs {
-			disj = append(disj, m.ctx.And(pc...))
+		// at least one return path must be feasible (checked on up to four return paths)
+		n := 0
+		step := 1
+		if len(m.coverPCs) > 8 {
+			step = (len(m.coverPCs) + 7) / 8
 		}
-		m.obls = append(m.obls, &Obligation{Func: relName(fn), Name: relName(fn) + "#cover.return", Kind: "cover", Cover: true,
-			PC: []*Term{m.ctx.Or(disj...)}, Goal: m.ctx.T, ctx: m.ctx, Tags: m.allTags(), Desc: "some path reaches a return", Inputs: m.inputs})
+		for i, pc := range m.coverPCs {
+			if i%step != 0 && i != len(m.coverPCs)-1 {
+				continue
+			}
+			n++
+			m.obls = append(m.obls, &Obligation{Func: relName(fn), Name: relName(fn) + "#cover.return", Kind: "cover.any", Cover: true,
+				PC: pc, Goal: m.ctx.T, ctx: m.ctx, Tags: m.allTags(), Desc: "some path reaches a return", Inputs: m.inputs})
+		}
+		if n == 0 {
+			m.obls = append(m.obls, &Obligation{Func: relName(fn), Name: relName(fn) + "#cover.return", Kind: "cover.any", Cover: true,
+				PC: []*Term{m.ctx.F}, Goal: m.ctx.T, ctx: m.ctx, Tags: m.allTags(), Desc: "some path reaches a return", Inputs: m.inputs})
+		}
 	}
 }
 
